@@ -283,7 +283,7 @@ def run(ctx):
                 q = b.params[int(rng.integers(len(b.params)))]
                 try:
                     v0 = q.get()
-                    q.set(float(rng.uniform(0.05, 0.95)) if (isinstance(v0, (int, float)) and 0 <= v0 <= 1) else pick_phase(rng))
+                    q.set(float(rng.uniform(0.05, 0.95)) if (isinstance(v0, (int, float, np.floating, np.integer)) and 0 <= v0 <= 1) else pick_phase(rng))
                     ctx.bucket("parameter_moved_after_rewrite")
                     log.append(["parameter_set_after", rw])
                 except Exception as e:  # noqa: BLE001
